@@ -125,13 +125,24 @@ def make(trees=TREES, reduced=False, preset_structure=False):
             if latest:
                 sel = [r for r in sel if r[1] == max(x[1] for x in sel if x[0] == r[0])]
             sel = sorted(sel)
+            if nv0 == 1 and nv1 == 1 and g.flag("stale_archive_index"):
+                # what a killed `cond archive` leaves behind: its temporary index with a committed selection
+                from conductor.execution.version_index import VersionIndex, Version
+                from conductor.task_identifier import TaskIdentifier
+                sti = VersionIndex.create_or_load(A.out / "version_index_archive.sqlite")
+                for r_ in rows[:1]:
+                    sti.insert_output_version(TaskIdentifier.from_str(r_[0]), Version(r_[1], r_[2], bool(r_[3])))
+                sti.insert_output_version(TaskIdentifier.from_str("//zz:stale"), Version(77, None, False))
+                sti.commit_changes()
+                sti._conn.close()
+                g.goal("temporary archive index left by a killed archive")
             before_rows = A.index_rows()
-            before_dig = hrun.tree_digest(A.out, exclude=("version_index.sqlite",))
+            before_dig = hrun.tree_digest(A.out, exclude=("version_index.sqlite", "version_index_archive.sqlite"))
             argv = ["archive"] + ([target] if target else []) + (["--latest"] if latest else []) + ["-o", arch]
             res = hrun.invoke_argv(argv, str(A.root), fakeos.Kernel(fakeos.Sched()))
             if isinstance(res.status, str):
                 g.require(False, "archive:crash:" + res.status[4:], "%s; %s" % (res.exc, D))
-            g.require(A.index_rows() == before_rows and hrun.tree_digest(A.out, exclude=("version_index.sqlite",)) == before_dig,
+            g.require(A.index_rows() == before_rows and hrun.tree_digest(A.out, exclude=("version_index.sqlite", "version_index_archive.sqlite")) == before_dig,
                       "archive:source-project-changed", "rows/outputs of the source project changed; %s" % D)
             if not sel:
                 g.require(res.status == 1 and not os.path.exists(arch), "archive:nothing-to-archive-not-reported",
@@ -177,7 +188,7 @@ def make(trees=TREES, reduced=False, preset_structure=False):
 
 def spaces(tier):
     goals = ["nothing to archive", "some versions not selected", "shared dependency in the archived closure",
-             "root-level task name with a leading hyphen"]
+             "root-level task name with a leading hyphen", "temporary archive index left by a killed archive"]
     sp = [Space("selection", make(trees=TREES[:1], reduced=True), "as 'two-experiments' below with the plain output tree, the second "
                 "experiment fixed in package p and commit/dirty in {NULL/clean, hash/dirty}", depth=8, goals=goals, tiers=("quick",)),
           Space("output-trees", make(reduced=True), "fixed structure (//p/q:a and //p:b1, one version each, archive everything) x "
